@@ -12,7 +12,7 @@ HARNESS = None   # built in regen (needs the generated header)
 TRUSTED = ["translator gen/cfun.py + gen/math_gen.py + gen/math_varargs.py (clang-14 JSON AST -> Lean; self-checked against the compiled C on every run)",
            "variadic arguments modelled as the list of arguments passed (va_arg = head of the list)",
            "meaning given to __builtin_{add,mul}_overflow, __builtin_c[lt]z* and the IEEE-754 ordered comparisons on float/double bit patterns (CSem.fcmp) in Model/CSem.lean",
-           "hand model Model/MathAsm.lean of the x86-64 inline assembly (tied by the correspondence run)",
+           "hand model Model/MathAsm.lean of the x86-64 inline assembly (tied by the correspondence run in four calling contexts at -O2 and by the literal shape table: template, operand constraints, clobbers, surrounding C of every asm statement re-extracted each run, theorem asm_shapes_as_modelled; written registers pinned, theorem asm_registers_pinned)",
            "signed shift/overflow UB given two's-complement meaning"]
 ASSUMPTIONS = ["x86-64 SysV: size_t = uint64_t; default build configuration resolves un-prefixed calls to the gcc_overflow/gcc_builtin variants"]
 RULE = ("every (variant, function) of math*.inl/clock.inl on the boundary operand product {0,1,2^k-1,2^k,2^k+1,MAX-1,MAX,MAX/b,MAX/b+1} "
@@ -36,8 +36,10 @@ def regen(ctx):
             va_err = str(e)
             lean_math, lean_disp, meta = math_gen.generate(repo, cfg, varargs=False)
         c_text, entries = math_gen.c_dispatch(repo, meta)
+        asm_text = math_gen.asm_shapes(repo)
     except cfun.GenError as e:
         raise GenError(va_err or str(e))
+    write_if_changed(os.path.join(LEAN, "AwsVerif", "Gen", "MathAsmShapes.lean"), asm_text)
     if va_err is None:
         write_if_changed(os.path.join(LEAN, "AwsVerif", "Gen", "Math.lean"), lean_math)
         write_if_changed(os.path.join(LEAN, "AwsVerif", "Gen", "MathDispatch.lean"), lean_disp)
@@ -179,6 +181,10 @@ def gen_cases(rng, tier):
             pairs += [(rng.getrandbits(w), rng.getrandbits(w)) for _ in range(200)]
             pairs += [(rng.getrandbits(rng.randint(1, w)), rng.getrandbits(rng.randint(1, w))) for _ in range(200)]
             ops = [f"m {v} {name} {a} {b}" for a, b in pairs]
+            if v == "ax":
+                # the inline assembly again in three other calling contexts (see gen/math_gen.py c_dispatch)
+                for cx in ("store", "sum", "acc"):
+                    ops += [f"m {v} {name}@{cx} {a} {b}" for a, b in pairs]
         # one case per (variant, function) chunk of <= 400 ops
         for i in range(0, len(ops), 400):
             cases.append(Case(ops[i:i + 400], {"variant": v, "fn": name}))
@@ -277,6 +283,23 @@ def oracle(case, lines):
                 if len(errs) > 3:
                     break
             continue
+        if "@" in t[2]:
+            fn, cx = t[2].split("@")
+            m = entries.get((t[1], fn))
+            if m is None:
+                continue
+            x, y = [int(v, 0) for v in t[3:]]
+            r1, r2 = reference(fn, [x, y], m["info"]), reference(fn, [y, x], m["info"])
+            if r1.startswith("err") or r2.startswith("err"):
+                exp = r1 if cx == "store" else "err 5"
+            else:
+                kind, v1, v2 = r1.split()[0], int(r1.split()[1]), int(r2.split()[1])
+                exp = f"{kind} {v1 if cx == 'store' else (v1 + v2 + (v1 if cx == 'acc' else 0)) % (1 << 64)}"
+            if line != "P " + exp:
+                errs.append(f"{op}: implementation (assembly inlined in the `{cx}` context) says `{line}`, mathematics says `P {exp}`")
+                if len(errs) > 3:
+                    break
+            continue
         null_out = t[2].endswith(":null")
         if null_out:
             t[2] = t[2][:-5]
@@ -323,7 +346,7 @@ MANIFEST = dict(
           "re-translated from /repo's headers into Lean on every run (clang AST -> shallow embedding over Nat with explicit "
           "wrap-around) and the theorems of Props/C16.lean are re-proved about what the code says now: checked add/mul/sub exact "
           "or overflow error, saturating forms, power-of-two test/rounding, clz/ctz, min/max (integer and float/double, the latter on IEEE-754 bit patterns), variant agreement, time-unit conversion "
-          "= min(floor(t*nf/of), 2^64-1) with the documented remainder. The x86-64 assembly variant is hand-modelled and proved equal. "
+          "= min(floor(t*nf/of), 2^64-1) with the documented remainder. The x86-64 assembly variant is hand-modelled and proved equal; the model is tied to the text of every asm statement (shape table re-extracted each run and proved literally equal to the one modelled; every register a template writes must be pinned by an output constraint or clobbered). "
           "The translation is validated each run by executing the generated Lean and all compiled C variants (incl. the assembly) on the "
           "boundary operand product, with a big-integer oracle."),
     note=("Trusted: Lean kernel; the translator (self-checked each run); meaning of compiler builtins (CSem.lean); asm hand model; "
